@@ -351,15 +351,21 @@ pub fn run(tier: &str, parity_odd: bool, shard: usize, nshards: usize, rep: &mut
                     all0.extend((0..tail).map(|i| 0xC0u8.wrapping_add(i as u8)));
                     let mut specs = vec![];
                     shapes(&all0, rich, &mut specs);
-                    for (si, spec0) in specs.iter().enumerate() {
-                        let full = rich || si % 5 == 0;
-                        for (pi, pat) in pats.iter().enumerate() {
+                    // one pass per pattern: the shape list is rebuilt once for the pattern's bytes, then every selected shape runs
+                    for (pi, pat) in pats.iter().enumerate() {
+                        let mut all: Vec<u8> = (0..k).map(|i| 0xE0 + i as u8).collect();
+                        all.extend_from_slice(pat);
+                        all.extend((0..tail).map(|i| 0xC0u8.wrapping_add(i as u8)));
+                        let mut sp: Vec<Spec> = vec![];
+                        let mut built = false;
+                        for (si, spec0) in specs.iter().enumerate() {
+                            let full = rich || si % 5 == 0;
+                            let _ = full;
                             let take = if tail > 1 {
-                                (pi == pats.len() / 2 || pi == 16.min(pats.len() - 1) || pi == 14.min(pats.len() - 1)) && (rich || si % 3 == 0 || matches!(spec0, Spec::Slice(_)))
+                                // long tails: every pattern of the <= 25-pattern sets on every third shape and on the contiguous one
+                                (pats.len() <= 25 || pi % 16 == 0 || pi == 0x7f || pi == 0x80 || pi == 0xff) && (rich || si % 3 == 0 || matches!(spec0, Spec::Slice(_)))
                             } else if pats.len() > 25 {
-                                si % 7 == 0 || pi % 16 == 0 || pi == 0x7f || pi == 0x80 || pi == 0xff
-                            } else if pats.len() == 25 {
-                                full || pi == 16 || pi == 14 // (80,01) and (7f,ff): sign bit and order pinned
+                                si % 3 == 0 || pi % 16 == 0 || pi == 0x7f || pi == 0x80 || pi == 0xff
                             } else {
                                 true
                             };
@@ -369,14 +375,11 @@ pub fn run(tier: &str, parity_odd: bool, shard: usize, nshards: usize, rep: &mut
                             if pass == 0 && (si % 11 != 0 || pi > 0) {
                                 continue;
                             }
-                            let mut all: Vec<u8> = (0..k).map(|i| 0xE0 + i as u8).collect();
-                            all.extend_from_slice(pat);
-                            all.extend((0..tail).map(|i| 0xC0u8.wrapping_add(i as u8)));
-                            // rebuild the same shape over these bytes
-                            let mut sp = vec![];
-                            shapes(&all, rich, &mut sp);
+                            if !built {
+                                shapes(&all, rich, &mut sp);
+                                built = true;
+                            }
                             let spec = &sp[si];
-                            let _ = spec0;
                             let want = decode(pat, m.order, m.signed);
                             cx.cell_ok(&m.name, m.nbytes, m.size, want, &all, spec, k, &*m.get, &*m.try_get);
                             cells += 1;
@@ -385,6 +388,8 @@ pub fn run(tier: &str, parity_odd: bool, shard: usize, nshards: usize, rep: &mut
                                 cx.rep.sample(s);
                             }
                         }
+                    }
+                    for spec0 in specs.iter() {
                         let mut sig = format!("{:?}", spec0);
                         sig.retain(|c| !c.is_ascii_digit());
                         cx.shapes_seen.insert(oracle::report::hash128(sig.as_bytes()) as u64);
